@@ -16,6 +16,7 @@ import (
 	"testing"
 	"time"
 
+	"github.com/valyala/bytebufferpool"
 	"github.com/valyala/fasthttp/internal/verif/mcrt"
 	msync "github.com/valyala/fasthttp/internal/verif/mcsync"
 	"github.com/valyala/fasthttp/internal/verif/mcx"
@@ -304,9 +305,31 @@ func c22StreamStartsLike(enc string, b []byte) bool {
 
 // ---- B3: CompressHandler on concurrent requests (what a client sees) -------------------------------------------------
 
+// request / competitor kinds of a B3 scenario
+const (
+	c22KBuffered = 0 // ctx.SetBody
+	c22KStream   = 1 // ctx.SetBodyStream(reader, -1)
+	c22KCodec    = 2 // not a request: a WriteGzipLevel(io.Writer) call that competes for the stackless writer queue
+	c22KWrite    = 3 // ctx.Write x2 (body grown in the pooled response buffer)
+	c22KRaw      = 4 // Response.SetBodyRaw (body not in a pooled buffer)
+	c22KPoolUser = 5 // not a request: another user of the shared body / copy buffer pools (see c22PoolUser)
+)
+
+var c22KindNames = []string{"buffered", "stream", "codec-call", "buffered-write", "buffered-raw", "pool-user"}
+
+// c22hspec: one concurrent participant. AE "" = the request carries no Accept-Encoding header (identity response, which
+// still takes its body buffer from the shared pool). Wrap: 1 CompressHandlerLevel, 2 CompressHandlerBrotliLevel.
+type c22hspec struct {
+	Kind int
+	Wrap int
+	AE   string
+}
+
 type c22hreq struct {
+	c22hspec
 	stream  bool
-	codec   bool // not a request: a WriteGzipLevel(io.Writer) call that competes for the stackless writer queue
+	codec   bool
+	pool    bool
 	body    []byte
 	done    bool
 	wire    []byte
@@ -316,39 +339,136 @@ type c22hreq struct {
 
 type c22hobs struct{ reqs []*c22hreq }
 
+const c22PoolMark = "POOLUSER"
+
+// c22DrainBodyPool empties the (not rewritten, therefore not reset per execution) bytebufferpool behind
+// responseBodyPool, so that what a Get returns depends on this execution only.
+func c22DrainBodyPool() {
+	for i := 0; i < 64; i++ {
+		if b := responseBodyPool.Get(); cap(b.B) == 0 {
+			return
+		}
+	}
+}
+
+// c22PoolUser is the environment every response shares its buffers with: some other goroutine of the process that
+// takes whatever the response-body pool and the copy-buffer pool hold, uses the buffers to their full capacity and
+// gives them back (what a request served on another connection does with them). A buffer that is in a pool belongs to
+// whoever gets it next: data that a response still needs must not be in there.
+func c22PoolUser(round int) {
+	fill := func(b []byte) {
+		for i := range b {
+			b[i] = c22PoolMark[(i+round)%len(c22PoolMark)]
+		}
+	}
+	var got []*bytebufferpool.ByteBuffer
+	for i := 0; i < 8; i++ {
+		b := responseBodyPool.Get()
+		if cap(b.B) == 0 {
+			break // fresh: the pool is empty
+		}
+		b.B = b.B[:cap(b.B)]
+		fill(b.B)
+		got = append(got, b)
+	}
+	for i := len(got) - 1; i >= 0; i-- {
+		responseBodyPool.Put(got[i])
+	}
+	var bufs []any
+	for i := 0; i < 2; i++ {
+		v := copyBufPool.Get()
+		if p, ok := v.([]byte); ok {
+			fill(p[:cap(p)])
+		}
+		bufs = append(bufs, v)
+	}
+	for i := len(bufs) - 1; i >= 0; i-- {
+		copyBufPool.Put(bufs[i])
+	}
+}
+
+// c22HandlerLoadBody: kinds of gzip requests through CompressHandlerLevel (the scenario shape of the earlier rounds).
 func c22HandlerLoadBody(capParam int, kinds []int, instrument bool) func() {
+	specs := make([]c22hspec, len(kinds))
+	for i, kd := range kinds {
+		specs[i] = c22hspec{Kind: kd, Wrap: 1, AE: "gzip"}
+	}
+	return c22HandlerMixBody(capParam, specs, instrument)
+}
+
+// c22CheapOther: the cheapest level of the non-brotli coding the request asks for.
+func c22CheapOther(ae string) int {
+	if ae == "zstd" {
+		return CompressZstdBestSpeed
+	}
+	return CompressHuffmanOnly
+}
+
+func c22HandlerMixBody(capParam int, specs []c22hspec, instrument bool) func() {
 	return func() {
 		c22SetGC(400)
 		mcrt.SetParam(c22Param, capParam)
 		if instrument {
 			c22Instrument()
 		}
+		// The pool behind responseBodyPool is the real sync.Pool (bytebufferpool is not rewritten): with one P it is LIFO,
+		// except that two collections between a Put and the next Get drop the buffer. Which buffer a Get returns must be
+		// a function of the schedule alone (replays), so the collector rests while the execution runs.
+		if os.Getenv("C22_GOGC") != "off" {
+			debug.SetGCPercent(-1)
+			defer debug.SetGCPercent(c22GCNow)
+		}
+		c22DrainBodyPool()
 		o := &c22hobs{}
 		mcrt.SetUserData(o)
-		for i, kd := range kinds {
-			o.reqs = append(o.reqs, &c22hreq{stream: kd == 1, codec: kd == 2, body: []byte(strings.Repeat(fmt.Sprintf("request-%d;", i), 30))})
+		for i, sp := range specs {
+			o.reqs = append(o.reqs, &c22hreq{c22hspec: sp, stream: sp.Kind == c22KStream, codec: sp.Kind == c22KCodec, pool: sp.Kind == c22KPoolUser,
+				body: []byte(strings.Repeat(fmt.Sprintf("request-%d;", i), 30))})
 		}
 		var wg msync.WaitGroup
-		wg.Add(len(kinds))
-		for i := range kinds {
+		wg.Add(len(specs))
+		for i := range specs {
 			rq := o.reqs[i]
 			mcrt.GoNamed(fmt.Sprintf("conn%d", i), func() {
 				defer wg.Done()
+				if rq.pool {
+					for round := 0; round < 2; round++ {
+						c22PoolUser(round)
+						mcrt.Yield()
+					}
+					rq.done = true
+					return
+				}
 				if rq.codec {
 					w := &c22PlainWriter{}
 					_, rq.werr = WriteGzipLevel(w, rq.body, CompressHuffmanOnly)
 					rq.wire, rq.done = w.b, true
 					return
 				}
-				h := CompressHandlerLevel(func(ctx *RequestCtx) {
-					if rq.stream {
+				inner := func(ctx *RequestCtx) {
+					switch rq.Kind {
+					case c22KStream:
 						ctx.SetBodyStream(bytes.NewReader(rq.body), -1)
-					} else {
+					case c22KWrite:
+						h := len(rq.body) / 3
+						ctx.Write(rq.body[:h]) //nolint:errcheck
+						ctx.Write(rq.body[h:]) //nolint:errcheck
+					case c22KRaw:
+						ctx.Response.SetBodyRaw(rq.body)
+					default:
 						ctx.SetBody(rq.body)
 					}
-				}, CompressHuffmanOnly)
+				}
+				var h RequestHandler
+				if rq.Wrap == 2 {
+					h = CompressHandlerBrotliLevel(inner, CompressBrotliNoCompression, c22CheapOther(rq.AE))
+				} else {
+					h = CompressHandlerLevel(inner, CompressHuffmanOnly)
+				}
 				var req Request
-				req.Header.Set("Accept-Encoding", "gzip")
+				if rq.AE != "" {
+					req.Header.Set("Accept-Encoding", rq.AE)
+				}
 				req.SetRequestURI("http://c22/x")
 				var ctx RequestCtx
 				ctx.Init(&req, nil, c22nopLogger{})
@@ -374,14 +494,15 @@ func c22HandlerLoadCheck(x *mcrt.Exec) (string, string, string) {
 		return "", "handler-load-never-returns", "a request is blocked forever: " + strings.Join(x.Out.Blocked, "; ")
 	}
 	ok, errs := 0, 0
+	encs := ""
 	for i, rq := range o.reqs {
-		kind := "buffered"
-		if rq.stream {
-			kind = "stream"
-		}
-		desc := fmt.Sprintf("request %d (%s body, %d bytes, Accept-Encoding: gzip)", i, kind, len(rq.body))
+		kind := c22KindNames[rq.Kind]
+		desc := fmt.Sprintf("request %d (%s body, %d bytes, %s, Accept-Encoding: %s)", i, kind, len(rq.body), c22WrapNames[rq.Wrap], c22AEDesc(rq.AE != "", rq.AE))
 		if !rq.done {
 			return "", "handler-load-not-finished", desc + " did not finish"
+		}
+		if rq.pool {
+			continue
 		}
 		if rq.werr != nil {
 			errs++ // writing the response failed visibly: the server closes the connection, the client sees a broken response
@@ -406,6 +527,15 @@ func c22HandlerLoadCheck(x *mcrt.Exec) (string, string, string) {
 		enc := strings.ToLower(resp.Header.Get("Content-Encoding"))
 		dec, derr := c22RefDecode(enc, raw)
 		if derr == nil && bytes.Equal(dec, rq.body) {
+			if enc != "" && enc != "identity" {
+				if acc, why := c22Accepts(rq.AE != "", rq.AE, enc); !acc {
+					return "", "handler-load-encoding-not-accepted-" + c22EncName(enc), fmt.Sprintf("%s: the response uses Content-Encoding %q, which the request does not accept (%s)", desc, enc, why)
+				}
+				if !c22VaryHas(resp.Header) {
+					return "", "handler-load-compressed-without-vary-accept-encoding", fmt.Sprintf("%s: the response is %s-compressed but Vary is %q", desc, enc, resp.Header.Values("Vary"))
+				}
+			}
+			encs += "," + c22EncName(enc)
 			ok++
 			continue
 		}
@@ -414,11 +544,33 @@ func c22HandlerLoadCheck(x *mcrt.Exec) (string, string, string) {
 			shape = "empty-body"
 		} else if derr != nil {
 			shape = "truncated-stream"
+		} else if whose := c22WhoseData(o, i, dec); whose != "" {
+			shape = whose
 		}
 		return "", fmt.Sprintf("handler-load-%s-%s-silent-%s", kind, c22EncName(enc), shape),
 			fmt.Sprintf("%s: response written without error and cleanly framed, declares Content-Encoding %q, but its %d body bytes decode to %d bytes (%v); the handler produced %d", desc, enc, len(raw), len(dec), derr, len(rq.body))
 	}
-	return fmt.Sprintf("ok=%d visible-errors=%d", ok, errs), "", ""
+	return fmt.Sprintf("ok=%d visible-errors=%d enc=%s", ok, errs, strings.TrimPrefix(encs, ",")), "", ""
+}
+
+// c22WhoseData names the foreign data found in the decoded body of request i: another concurrent request's body, or
+// what another user of the shared buffer pools wrote (part of the violation signature).
+func c22WhoseData(o *c22hobs, i int, dec []byte) string {
+	for j, r2 := range o.reqs {
+		if j == i || r2.pool || len(r2.body) == 0 {
+			continue
+		}
+		if bytes.Equal(dec, r2.body) {
+			return "another-requests-body"
+		}
+		if bytes.Contains(dec, r2.body[:10]) { // "request-j;"
+			return "another-requests-data"
+		}
+	}
+	if bytes.Contains(dec, []byte(c22PoolMark)) {
+		return "another-pool-users-data"
+	}
+	return ""
 }
 
 // ---- full-scale directed witnesses (queue capacity GOMAXPROCS*2048 as shipped) ----------------------------------------
@@ -520,6 +672,44 @@ func c22Scenarios(r *vrt.R, th bool) []mcx.Scenario {
 	add("handler/buffered/cap1/2requests", vrt.Pick(r, 1, 3), c22HandlerLoadBody(1, []int{0, 0}, true), c22HandlerLoadCheck)
 	add("handler/buffered/cap1/3requests", vrt.Pick(r, 0, 1), c22HandlerLoadBody(1, []int{0, 0, 0}, false), c22HandlerLoadCheck)
 	add("handler/stream+codec-call/cap1", vrt.Pick(r, 0, 1), c22HandlerLoadBody(1, []int{1, 2}, false), c22HandlerLoadCheck)
+	// every coding of both level wrappers (gzipBody/deflateBody/brotliBody/zstdBody are four copies of one body-swap
+	// sequence around a parking Append* call), every buffered body mode, next to the other users of the shared
+	// response-body pool: a second compressed response, an identity response, and the bare pool user
+	codings := []c22hspec{{Wrap: 2, AE: "br"}, {Wrap: 2, AE: "gzip"}, {Wrap: 1, AE: "deflate"}, {Wrap: 2, AE: "deflate"}, {Wrap: 2, AE: "zstd"}, {Wrap: 1, AE: "gzip"}}
+	for ci, cg := range codings {
+		if !th && (ci == 1 || ci == 3) { // quick tier: each of the four *Body functions through one wrapper
+			continue
+		}
+		name := fmt.Sprintf("%s-%s", c22WrapNames[cg.Wrap], cg.AE)
+		for _, kd := range []int{c22KBuffered, c22KWrite, c22KRaw} {
+			if !th && kd != c22KBuffered && ci > 0 { // quick tier: the other body modes with br only
+				continue
+			}
+			me := cg
+			me.Kind = kd
+			pb := vrt.Pick(r, 1, 3)
+			if ci == 0 {
+				pb = vrt.Pick(r, 2, 3)
+			}
+			add(fmt.Sprintf("handler/%s/%s+pool-user/cap1", name, c22KindNames[kd]), pb, c22HandlerMixBody(1, []c22hspec{me, {Kind: c22KPoolUser}}, false), c22HandlerLoadCheck)
+		}
+		if ci < 5 { // (CompressHandlerLevel gzip x2 is handler/buffered/cap1/2requests above)
+			a, b2 := cg, cg
+			a.Kind, b2.Kind = c22KBuffered, c22KWrite
+			rb := vrt.Pick(r, 0, 2)
+			if ci == 0 {
+				rb = vrt.Pick(r, 1, 3)
+			}
+			add(fmt.Sprintf("handler/%s/buffered+buffered-write/cap1", name), rb, c22HandlerMixBody(1, []c22hspec{a, b2}, true), c22HandlerLoadCheck)
+		}
+	}
+	add("handler/mixed/br-buffered+zstd-write+identity-buffered/cap1", vrt.Pick(r, 0, 1), c22HandlerMixBody(1,
+		[]c22hspec{{Kind: c22KBuffered, Wrap: 2, AE: "br"}, {Kind: c22KWrite, Wrap: 2, AE: "zstd"}, {Kind: c22KBuffered, Wrap: 2}}, false), c22HandlerLoadCheck)
+	add("handler/mixed/gzip-buffered+deflate-raw+identity-write/cap1", vrt.Pick(r, 0, 1), c22HandlerMixBody(1,
+		[]c22hspec{{Kind: c22KBuffered, Wrap: 1, AE: "gzip"}, {Kind: c22KRaw, Wrap: 1, AE: "deflate"}, {Kind: c22KWrite, Wrap: 1}}, false), c22HandlerLoadCheck)
+	if th {
+		add("handler/CompressHandlerBrotliLevel-br/stream+pool-user/cap1", 0, c22HandlerMixBody(1, []c22hspec{{Kind: c22KStream, Wrap: 2, AE: "br"}, {Kind: c22KPoolUser}}, false), c22HandlerLoadCheck)
+	}
 	// (two concurrent stream responses: > 9e5 executions at bound 0 without completing it -- not included)
 	r.Set("preemption_bound", fmt.Sprint(b))
 	if only := os.Getenv("C22_ONLY"); only != "" { // development aid: restrict to scenarios whose name contains the value
@@ -543,6 +733,8 @@ func c22Balance(scs []mcx.Scenario) []mcx.Scenario {
 			w *= 12
 		}
 		switch {
+		case strings.Contains(s.Name, "+pool-user"):
+			w /= 10 // one request and a competitor without scheduling points of its own
 		case strings.Contains(s.Name, "4callers"), strings.Contains(s.Name, "3callers-x2"), strings.Contains(s.Name, "handler/stream"):
 			w *= 20
 		case strings.Contains(s.Name, "3callers"), strings.Contains(s.Name, "3requests"), strings.Contains(s.Name, "gzip+br+zstd"):
@@ -558,12 +750,20 @@ func c22Balance(scs []mcx.Scenario) []mcx.Scenario {
 	if len(scs) <= n {
 		return scs
 	}
-	// the n heaviest, lightest of them first, then the rest heaviest first: worker k gets scs[k] and scs[k+n]
-	head := scs[:n]
+	// Worker k runs scs[k], scs[k+n], ... in this order. The n heaviest scenarios (lightest of them first) form one row,
+	// the others (heaviest first) the remaining rows, so that every worker gets one heavy scenario and the worker with
+	// the heaviest one gets the lightest of the others. The light rows come first: when the machine is loaded and the
+	// time cap cuts a worker short, it cuts into the one large schedule space instead of skipping small ones entirely.
+	// (Only the last row may be incomplete: it takes the heaviest of the others.)
+	head := append([]mcx.Scenario(nil), scs[:n]...)
 	for i, j := 0, n-1; i < j; i, j = i+1, j-1 {
 		head[i], head[j] = head[j], head[i]
 	}
-	return scs
+	rest := scs[n:]
+	part := len(rest) % n
+	out := append([]mcx.Scenario(nil), rest[part:]...)
+	out = append(out, head...)
+	return append(out, rest[:part]...)
 }
 
 func c22Witnesses() []c22WCase {
@@ -593,6 +793,9 @@ func TestVerif_C22(t *testing.T) {
 		"decodes per declared Content-Encoding to exactly the handler's body, coding accepted by the request, handler-declared coding untouched, Vary: Accept-Encoding when compressed; every Append*/Write* form round-trips through the reference decoder and the library's own AppendUn*/WriteUn*. " +
 		"B (schedules): closed systems of 2-4 callers of a fresh stackless.NewFunc wrapper, of Append*/Write* (all four codecs, three writer kinds) and of CompressHandler responses with queue capacity 1-2 and one worker, all interleavings up to the preemption bound: " +
 		"true => f ran exactly once with the caller's own ctx before the return; false => queue full; every codec call's output decodes to its own input or the call reports an error; every response is correct or visibly broken. " +
+		"CompressHandler responses under load: {CompressHandlerLevel, CompressHandlerBrotliLevel} x Accept-Encoding {br,gzip,deflate,zstd} x body {SetBody, ctx.Write x2, SetBodyRaw} (stream: gzip, thorough also br), each next to the other users of the process-wide response-body and copy-buffer pools: " +
+		"a second compressed response of the same coding, responses of other codings, an identity response (no Accept-Encoding), a direct WriteGzipLevel call, and a bare pool user that takes every pooled buffer, overwrites it to its capacity and gives it back (twice, at any two instants of the schedule); " +
+		"every response must decode per its declared coding to its own handler's body (never another request's or pool user's data), use a coding its request accepts and carry Vary: Accept-Encoding when compressed. " +
 		"X (cross-codec, one world per sequence): ordered pairs/triples of operations of different codecs {Append, Write to bytes.Buffer, Write to plain io.Writer, CompressHandlerBrotliLevel response buffered/stream-unsized/stream-writer} at levels that share one pool index, so that pooled real and stackless writers are handed from one codec's user to the next; every step must decode per its expected/declared coding to its own input. " +
 		"W: one directed execution at the shipped capacity 2048 with 2050 simultaneous callers. Non-trivial: executions with >=1 deviation, compressed responses, codec round trips")
 	r.Assume("mcrt shim semantics (litmus-tested); sync.Pool modelled as deterministic LIFO without scheduling points",
